@@ -66,6 +66,32 @@ Definition class_decls_ (ops : list defop) : list cdecl := class_decls_acc ops [
 (** with the outcomes of the definitions: a decoration that raised adds nothing *)
 Definition class_decls_h (ops : list defop) (errs : list (option string)) : list cdecl := class_decls_acc ops errs [].
 
+(** the hierarchy as the *observed* outcomes give it: a class statement that raised leaves a dead slot, one
+    that did not has its bases linearised.  The oracles below read only liveness, the resolution order and
+    "created through the metaclass" from their world argument; on an observed history they are given this
+    world, so that a class statement which the model rejects but the implementation accepted is judged too. *)
+Definition add_class (w : world) (c : cobj) : world :=
+  {| w_heap := w_heap w; w_funcs := w_funcs w; w_classes := w_classes w ++ [c];
+     w_registered := w_registered w; w_module := w_module w |}.
+Fixpoint skeleton_world_from (w : world) (ops : list defop) (errs : list (option string)) : world :=
+  match ops with
+  | [] => w
+  | DefClass d :: r =>
+      let k := List.length (w_classes w) in
+      let meta := cd_dbc d || existsb (fun b => match get_class w b with Some c => co_meta c | None => false end) (cd_bases d) in
+      skeleton_world_from
+        (add_class w (match hd None errs, forallb (is_live w) (cd_bases d), compute_mro w k (cd_bases d) with
+                      | None, true, Some mro =>
+                          {| co_name := k; co_bases := cd_bases d; co_mro := mro; co_meta := meta; co_ns := [];
+                             co_inv := None; co_inv_call := None; co_inv_set := None; co_last_check_on := None |}
+                      | _, _, _ => dead_class k
+                      end))
+        r (tl errs)
+  | _ :: r => skeleton_world_from w r (tl errs)
+  end.
+Definition skeleton_world (ops : list defop) (errs : list (option string)) : world :=
+  skeleton_world_from empty_world ops errs.
+
 (** the property speaks of classes on the contract-inheriting base: a history in which a class that is
     *not* created through DBCMeta is given invariants although an ancestor has invariants is outside
     its scope (the documentation calls that undefined) *)
@@ -310,7 +336,12 @@ Definition check_member_view (decls : list cdecl) (mro : nat -> list nat) (k : n
         if negb (zset_eqb (fv_post v) posts && zset_eqb (fv_snaps v) snaps) then V_bad
         else if negb ctor && accept_all decls mro p name acc
              then (if is_nil (fv_pre v) then V_ok
-                   else if gset_eqb (fv_pre v) groups then V_known 0    (* kf_C04_accept_all: several bases, one without preconditions *)
+                   else if gset_eqb (fv_pre v) groups
+                           (* kf_C04_accept_all: several bases, one without preconditions, *another one with* - a class whose
+                              only preconditions are its own, under ancestors that accept every call, must not exist *)
+                           && existsb (fun cm => negb (Nat.eqb (fst cm) p) && negb (is_nil (own_pre (snd cm))))
+                                      (definers decls mro p name acc)
+                        then V_known 0
                    else V_bad)
         else if gset_eqb (fv_pre v) groups then V_ok else V_bad in
       match verdict with
